@@ -6,6 +6,7 @@ import (
 	"crypto/ed25519"
 	"encoding/base64"
 	"fmt"
+	"time"
 
 	"pgregory.net/rapid"
 )
@@ -20,7 +21,7 @@ type c05Case struct {
 	Floats  bool    `json:"floats,omitempty"`
 }
 
-var c05TopExtras = []string{"origin", "membership", "prev_state", "redacts", "unsigned", "age_ts", "foo", "outlier", "destinations", "replaces_state", "event_id"}
+var c05TopExtras = []string{"origin", "membership", "prev_state", "redacts", "unsigned", "age_ts", "foo", "outlier", "destinations", "replaces_state", "event_id", "sticky", "msc4354_sticky"}
 
 func c05Check(ctx *vfCtx, c c05Case) {
 	impl, err := GetRoomVersion(RoomVersion(c.Version))
@@ -130,6 +131,37 @@ func c05Check(ctx *vfCtx, c c05Case) {
 	}
 	if string(j1) != string(ev.JSON()) {
 		ctx.Fail("C05/not-idempotent/pdu", "second Redact() changed the JSON")
+	}
+
+	// the PDU after Redact() is the PDU a fresh parse of its JSON gives: no accessor still answers from
+	// what redaction removed (top-level redacts, unsigned, sticky markers, ...)
+	{
+		var fresh PDU
+		var ferr error
+		if !vfCatch(ctx, "C05/fresh", func() { fresh, ferr = impl.NewEventFromTrustedJSON(append([]byte(nil), ev.JSON()...), true) }) && ferr == nil && fresh != nil {
+			type extra struct {
+				Redacts, Unsigned string
+				Sticky            bool
+				StickyEnd         int64
+			}
+			get := func(label string, e PDU) (x extra, ok bool) {
+				ok = !vfCatch(ctx, "C05/"+label, func() {
+					now := time.UnixMilli(int64(e.OriginServerTS()) + 1000)
+					x.Redacts = e.Redacts()
+					x.Unsigned = string(e.Unsigned())
+					x.Sticky = e.IsSticky(now, now)
+					if t := e.StickyEndTime(now); !t.IsZero() {
+						x.StickyEnd = t.UnixMilli()
+					}
+				})
+				return
+			}
+			a, ok1 := get("after-redact", ev)
+			f, ok2 := get("fresh-parse", fresh)
+			if ok1 && ok2 && a != f {
+				ctx.Fail("C05/pdu-after-redact-differs-from-its-json"+kc, "after Redact() the accessors answer %+v, a fresh parse of the same JSON answers %+v; json=%q", a, f, ev.JSON())
+			}
+		}
 	}
 
 	// signatures survive (events are signed by the reference signer over R-canon(R-redact(event)))
@@ -308,6 +340,10 @@ func c05Gen(t *rapid.T) c05Case {
 				continue // format-1 events carry their real event_id
 			}
 			extras = extras.with(k, jstr("$stale:other.example")) // a stray key in format-2 events
+		} else if k == "sticky" || k == "msc4354_sticky" {
+			extras = extras.with(k, jobj("duration_ms", jnum(600000))) // the field is an object with a duration
+		} else if k == "unsigned" {
+			extras = extras.with(k, jobj("age", jnum(5), "prev_content", jobj("body", jstr("before")))) // an object, as SetUnsigned writes it
 		} else {
 			extras = extras.with(k, jgenValue(t, o, 1, "extraVal"))
 		}
@@ -338,6 +374,10 @@ func c05EnumTable(size, shard, nshards int, emit func(c05Case)) {
 			return jobj("@a:a.example", jnum(100))
 		case "allow", "aliases", "additional_creators":
 			return jarr(jstr("x"))
+		case "sticky", "msc4354_sticky":
+			return jobj("duration_ms", jnum(600000))
+		case "unsigned":
+			return jobj("age", jnum(5), "prev_content", jobj("body", jstr("before")))
 		}
 		return jstr("v-" + k)
 	}
